@@ -30,3 +30,9 @@ Proof. vm_compute. reflexivity. Qed.
 (* the context pool resets a context before it makes it available to others *)
 Lemma ctxpool_resets_before_pooling : ctxpool_put_calls = ["ctx.Reset"%string; "p.p.Put"%string].
 Proof. reflexivity. Qed.
+
+(* no function other than init and the Register* family stores to a
+   package-level variable: there is no shared mutable state besides the
+   registries (guarded by their locks) and sync.Pool-backed pools *)
+Lemma no_package_level_stores : package_level_stores = [].
+Proof. reflexivity. Qed.
